@@ -305,6 +305,7 @@ func C10(tier string) *engine.Report {
 	var tot engine.BFSTotals
 	for _, size := range bipSizes(tier) {
 		sp := bipSpec(size)
+		sp.Until = engine.Cap(tier)
 		tot.Add(sp.Name, sp.Run(), rep)
 	}
 	tot.Fill(rep, "complete reachable state space of a real sonic.BipBuffer per size under Claim/Commit/Consume(0..size+1) and Reset, BFS to fixpoint; "+
